@@ -146,9 +146,10 @@ def judge(case):
                          if use_handler else None)
         # (nothing else refers to the handler's owner now; CPython frees unreferenced objects at once)
         events = []
+        it = iter(rdr) if case.get("via_iter") else rdr  # the caller may keep ONE iterator object
         for _ in range(2 * len(frames) + 4):
             try:
-                raw, _parsed = next(rdr)
+                raw, _parsed = next(it)
                 events.append(("frame", bytes(raw)))
             except StopIteration:
                 events.append(("stop",))
@@ -221,6 +222,9 @@ def cases(tier):
             for q in (0, 1, 2):
                 out.append({"frames": frames, "damage": {i: 1}, "q": q, "handler": "falsy"})
                 out.append({"frames": frames, "damage": {i: 1}, "q": q, "handler": "method"})
+                out.append({"frames": frames, "damage": {i: 1}, "q": q, "handler": True, "via_iter": True})
+                out.append({"frames": frames, "damage": {j: 1 for j in range(k)}, "q": q, "handler": False,
+                            "via_iter": True})
                 out.append({"frames": frames, "damage": {j: 1 for j in range(k)}, "q": q, "handler": "method"})
     for k in ks:
         frames = base_frames(k)
